@@ -150,3 +150,56 @@ Proof.
   apply orb_false_iff in H. destruct H as [H1 H2].
   unfold cli_value. simpl typed. rewrite H1, H2, H3, H4. simpl. rewrite py_int_decimal. reflexivity.
 Qed.
+
+(* ---------- general facts about py_int on digit strings (used by the enum proofs) ---------- *)
+Lemma py_int_digits ds : all_digits ds = true -> ds <> [] ->
+  py_int ds = Some (Z.of_N (parse_from 0 ds)).
+Proof.
+  intros Ha Hne. unfold py_int. rewrite lstrip_digits, rstrip_digits by exact Ha.
+  destruct ds as [|c r]; [contradiction|].
+  assert (Hc : is_digit c = true) by (simpl in Ha; apply andb_true_iff in Ha; tauto).
+  assert (c <> 45 /\ c <> 43)%N as [H45 H43].
+  { unfold is_digit in Hc. apply andb_true_iff in Hc. destruct Hc as [Hc _]. apply N.leb_le in Hc. lia. }
+  apply N.eqb_neq in H45. apply N.eqb_neq in H43. rewrite H45, H43.
+  rewrite dv_digits; [reflexivity | exact Ha | left; discriminate].
+Qed.
+
+Lemma strip_sign_digits s ds : (s = 45 \/ s = 43)%N -> all_digits ds = true -> ds <> [] ->
+  rstrip (lstrip (s :: ds)) = s :: ds.
+Proof.
+  intros Hs Ha Hne.
+  assert (Hl : lstrip (s :: ds) = s :: ds) by (destruct Hs; subst; reflexivity). rewrite Hl.
+  unfold rstrip. simpl rev. destruct ds as [|c r] eqn:E; [contradiction|].
+  assert (Hlast : exists x l, rev (c :: r) = x :: l /\ is_digit x = true).
+  { destruct (rev (c :: r)) as [|x l] eqn:Er.
+    - apply (f_equal (@List.length N)) in Er. rewrite rev_length in Er. discriminate.
+    - exists x, l. split; [reflexivity|].
+      assert (all_digits (x :: l) = true) by (rewrite <- Er, all_digits_rev; exact Ha).
+      simpl in H. apply andb_true_iff in H. tauto. }
+  destruct Hlast as [x [l [Er Hx]]]. rewrite Er. simpl. rewrite (digit_not_space _ Hx).
+  change (rev ((x :: l) ++ [s]) = s :: c :: r). rewrite <- Er.
+  rewrite rev_app_distr, rev_involutive. reflexivity.
+Qed.
+
+Lemma py_int_neg_digits ds : all_digits ds = true -> ds <> [] ->
+  py_int (45%N :: ds) = Some (- Z.of_N (parse_from 0 ds))%Z.
+Proof.
+  intros Ha Hne. unfold py_int. rewrite strip_sign_digits by (auto).
+  rewrite N.eqb_refl. rewrite dv_digits; [reflexivity | exact Ha | left; exact Hne].
+Qed.
+
+Lemma py_int_pos_digits ds : all_digits ds = true -> ds <> [] ->
+  py_int (43%N :: ds) = Some (Z.of_N (parse_from 0 ds)).
+Proof.
+  intros Ha Hne. unfold py_int. rewrite strip_sign_digits by (auto).
+  change ((43 =? 45)%N) with false. rewrite N.eqb_refl.
+  rewrite dv_digits; [reflexivity | exact Ha | left; exact Hne].
+Qed.
+
+(* decimal k : digits, non-empty, value k *)
+Lemma decimal_nonneg k : (0 <= k)%Z ->
+  all_digits (decimal k) = true /\ decimal k <> [] /\ parse_from 0 (decimal k) = Z.to_N k.
+Proof.
+  intros Hk. destruct k as [|p|p]; [repeat split; discriminate | | lia].
+  destruct (digits_of_pos p) as [Ha [Hne Hv]]. unfold decimal. repeat split; assumption.
+Qed.
